@@ -102,7 +102,7 @@ AST_TESTS = {
 }
 AST_IGNORED = {  # recognised forms outside the model's vocabulary (their presence does not matter to the model)
     "is_typing_name(root, 'TypeGuard')", "is_typing_name(root, 'TypeIs')", "is_typing_name(root, 'Required')",
-    "is_typing_name(root, 'NotRequired')", "is_typing_name(root, 'ReadOnly')", "root is AsynqCallable", "<else>",
+    "is_typing_name(root, 'NotRequired')", "is_typing_name(root, 'ReadOnly')", "root is AsynqCallable", "is_instance_of_typing_name(root, 'TypeAliasType')", "<else>",
 }
 AST_ACTIONS = {
     "return unite_values(*[_type_from_value(elt, ctx) for elt in members])": "ActUniteMembers",
@@ -246,6 +246,14 @@ PINS_VISITOR = {
 }
 PIN_STARRED = "def visit_Starred(self, node: ast.Starred) -> Value:\n    return _SubscriptedValue(KnownValue(typing_extensions.Unpack), (self.visit(node.value),))"
 PIN_FORWARD = "def _eval_forward_ref(val: str, ctx: Context, *, is_typeddict: bool=False, allow_unpack: bool=False) -> Value:\n    try:\n        tree = ast.parse(val, mode='eval')\n    except SyntaxError:\n        ctx.show_error(f'Syntax error in type annotation: {val}')\n        return AnyValue(AnySource.error)\n    else:\n        return _type_from_ast(tree.body, ctx, is_typeddict=is_typeddict, allow_unpack=allow_unpack)"
+
+
+class _DropWith(ast.NodeTransformer):
+    """`with <context manager>: body` -> body (context managers that only set evaluation flags)"""
+
+    def visit_With(self, node):
+        self.generic_visit(node)
+        return node.body
 PIN_STR_BRANCH = "if isinstance(val, str):\n    return _eval_forward_ref(val, ctx, is_typeddict=is_typeddict, allow_unpack=allow_unpack)"
 PIN_GLOBALS = "def get_name_from_globals(self, name: str, globals: Mapping[str, Any]) -> Value:\n    if name in globals:\n        return KnownValue(globals[name])\n    elif hasattr(builtins, name):\n        return KnownValue(getattr(builtins, name))\n    return self.handle_undefined_name(name)"
 
@@ -273,7 +281,8 @@ def pins_annotations(tree, fname):
                 if isinstance(m, ast.FunctionDef) and m.name == "visit_Starred":
                     _pin(fname, m, PIN_STARRED)
                     has_starred = True
-    _pin(fname, _func(tree, "_eval_forward_ref", fname), PIN_FORWARD)
+    fwd = ast.fix_missing_locations(_DropWith().visit(ast.parse(ast.unparse(_func(tree, "_eval_forward_ref", fname)))))
+    _pin(fname, fwd.body[0], PIN_FORWARD)
     _pin(fname, _func(tree, "get_name_from_globals", fname, cls="Context"), PIN_GLOBALS)
     rt = _func(tree, "_type_from_runtime", fname)
     first = rt.body[0]
@@ -294,6 +303,10 @@ PIN_RT_KIND = ("if parameter.kind == inspect.Parameter.POSITIONAL_OR_KEYWORD and
 PIN_POSONLY_LOOP = "if make_everything_pos_only:\n    parameters = [replace(param, kind=ParameterKind.POSITIONAL_ONLY) for param in parameters]"
 PIN_ANNOTATED = ("if parameter.annotation is not inspect.Parameter.empty:\n    kind = ParameterKind(parameter.kind)\n    ctx = AnnotationsContext(self, func_globals)\n"
                  "    typ = type_from_runtime(parameter.annotation, ctx=ctx, allow_unpack=kind.allow_unpack())\n    return translate_vararg_type(kind, typ, self.ctx)")
+
+
+PIN_DEF_PRIVATE = ("for i, (kind, arg) in enumerate(args):\n    if kind is ParameterKind.POSITIONAL_OR_KEYWORD and is_positional_only_arg_name(arg.arg):\n"
+                   "        args[:i + 1] = [(ParameterKind.POSITIONAL_ONLY, earlier) for _, earlier in args[:i + 1]]")
 
 
 def translate_signatures(repo):
@@ -318,10 +331,19 @@ def translate_signatures(repo):
             break
     if len(order) != 5:
         _fail(fname, fn, f"expected five kinds in the assembly of `args`, found {order}")
+    # the PEP 484 private-name rule in compute_parameters (a loop over `args` before the main loop)
+    rule = False
+    for st in fn.body:
+        if isinstance(st, ast.For) and ast.unparse(st.iter) == "enumerate(args)" and "is_positional_only_arg_name" in ast.unparse(st):
+            if ast.unparse(st) != PIN_DEF_PRIVATE:
+                _fail(fname, st, "the private-name loop of compute_parameters changed")
+            rule = True
+    out.append("(* functions.py compute_parameters: is the PEP 484 `__x is positional-only` rule applied? *)")
+    out.append(f"Definition def_private_rule : bool := {'true' if rule else 'false'}.")
     out.append("(* functions.py compute_parameters: the order in which `args` is assembled *)")
     out.append("Definition def_kind_order : list pkind := [" + "; ".join(order) + "].")
     # the SigParameter built at the end of the loop
-    loop = [st for st in fn.body if isinstance(st, ast.For)][0]
+    loop = [st for st in fn.body if isinstance(st, ast.For) and 'zip_longest' in ast.unparse(st.iter)][0]
     last = [ast.unparse(s) for s in loop.body[-3:]]
     if last != ["param = SigParameter(arg.arg, kind, default, value)", "info = ParamInfo(param, arg, is_self)", "params.append(info)"]:
         _fail(fname, loop, "the end of the parameter loop changed")
